@@ -391,6 +391,18 @@ pub fn run(ctx: &Ctx) -> Result<Run, String> {
     for s in ["", ".", "..", "...", ".com", "com.", "a..com", "COM", "Example.COM", "www.CK", "食狮.公司.cn", "公司.cn", "xn--55qx5d.cn", "\u{0}", "a\u{0}.com", " ", "a b.com", "*.ck", "!www.ck", "*", "!", "com.*", "\u{fffd}.com", "ⓔxample.com"] {
         odd.push(s.to_string());
     }
+    // every printable ASCII byte (and a few others) right after and right before each dot of names of
+    // 8 and more bytes: a separator search that works on machine words has one behaviour per
+    // neighbouring byte (0x2D, 0x2F sit next to 0x2E)
+    for base in ["www.example.com", "aaaaa.b.com", "www.example.co.uk", "x.www.ck", "a.b.c.d.e.kobe.jp", "abcdefgh.ijklmnop.qrstuvwx.yz"] {
+        let dots: Vec<usize> = base.match_indices('.').map(|(i, _)| i).collect();
+        for b in (0x21u8..0x7f).chain([0x01, 0x7f]).filter(|b| *b != b'.') {
+            for &d in &dots {
+                odd.push(format!("{}.{}{}", &base[..d], b as char, &base[d + 1..]));
+                odd.push(format!("{}{}.{}", &base[..d], b as char, &base[d + 1..]));
+            }
+        }
+    }
     // the other three code points IDNA treats as label separators, at every dot of a sample of
     // rule-derived names and of fixed names (no-crash and structural checks)
     for sep in ['\u{3002}', '\u{FF0E}', '\u{FF61}'] {
@@ -423,7 +435,7 @@ pub fn run(ctx: &Ctx) -> Result<Run, String> {
     let rules = psl.rules.len();
     let mut run = Run::from_stats(
         "exploration",
-        "a second, hand-encoded table (com, corp, intra.corp, *.lab, !gate.lab, test) behind the same generic ListProvider, looked up before, between (every ordered pair default-name/tiny-name on one thread) and after the default-table lookups and compared with the reference matcher over its own rules; every rule of public_suffix_list.dat (A-label form; wildcards instantiated with two labels and their base, exceptions without '!') as-is, with its leading label removed/replaced and with 1..12 labels prepended, compared on public_suffix / effective_tld_plus_one / is_effective_tld with a textbook PSL matcher over the .dat file; half of those names again with Unicode labels prepended (label counts must agree); every rule with each of the 64 most frequent labels of the list (thorough: every distinct label of the list) and the labels of its 4 (8) neighbours in table order in front of it; for every rule an ordered sequence of five lookups on one thread whose names share labels at different levels (reversed rule, rule, repeated top label); plus all strings over {c,k,o,m,u,w,.,A,é} up to the stated length and long/odd names incl. the three other IDNA label separators (U+3002, U+FF0E, U+FF61) in place of a dot of fixed and rule-derived names (structural checks always, equality for canonical lower-case ASCII names). Non-trivial = a canonical name whose prevailing rule is an explicit rule of the list",
+        "a second, hand-encoded table (com, corp, intra.corp, *.lab, !gate.lab, test) behind the same generic ListProvider, looked up before, between (every ordered pair default-name/tiny-name on one thread) and after the default-table lookups and compared with the reference matcher over its own rules; every rule of public_suffix_list.dat (A-label form; wildcards instantiated with two labels and their base, exceptions without '!') as-is, with its leading label removed/replaced and with 1..12 labels prepended, compared on public_suffix / effective_tld_plus_one / is_effective_tld with a textbook PSL matcher over the .dat file; half of those names again with Unicode labels prepended (label counts must agree); every rule with each of the 64 most frequent labels of the list (thorough: every distinct label of the list) and the labels of its 4 (8) neighbours in table order in front of it; for every rule an ordered sequence of five lookups on one thread whose names share labels at different levels (reversed rule, rule, repeated top label); plus all strings over {c,k,o,m,u,w,.,A,é} up to the stated length and every printable ASCII byte right after and right before each dot of six names of 8+ bytes; long/odd names incl. the three other IDNA label separators (U+3002, U+FF0E, U+FF61) in place of a dot of fixed and rule-derived names (structural checks always, equality for canonical lower-case ASCII names). Non-trivial = a canonical name whose prevailing rule is an explicit rule of the list",
         true,
         stats,
     );
